@@ -15,8 +15,10 @@
   is seen as well.
   The flux inside `q_e` is the model's `Evap2D.vapourFlux` at `Evap2D.pLiquid/pSolid`; those three are tied
   to utils.py in GenTie/Evap.lean (`pLiquid`, `pSolid`, `vapourFlux`).
-  Not tied (calls the translator rejects): `BETA` (`np.ones`), `m_ice` (`np.zeros`), `simps(…)`,
-  `np.linspace`, the `_stats` dict; they stay tied by the C02/C07/C15 correspondence.
+  `BETA` and `m_ice` (`np.ones(shape)` / `np.zeros(shape)` = the constant 1 / 0 of one node, masks multiplied in as
+  numbers) and the two mask statements of the solidification loop are tied as well.
+  Not tied (calls the translator rejects): `simps(…)`, `np.linspace`, the `_stats` dict; they stay tied by the
+  C02/C07/C15 correspondence.
 -/
 import SnowModel.Snowing2D
 import SnowModel.Gen.Formulas2D
@@ -217,7 +219,10 @@ def solidStepGen (c : Ctx α) (inplace : Bool) (Tsh : α) (qe : Nat → α) (T w
   let cpA : Array α := Array.ofFn (n := n) fun x => cpEff c.p (rd1 w x.val)
   let kA : Array α := Array.ofFn (n := n) fun x => kEff c.p (rd1 w x.val)
   let BA : Array α := Array.ofFn (n := n) fun x =>
-    BETAof c.p c.Tm (mask.getD x.val false) (rd1 cpA x.val) (rd1 T x.val)
+    F2D.BETA (LCS_i_r := mnum (!(mask.getD x.val false)))
+      (beta := F2D.beta (Dh := c.p.Dh) (k_f := c.p.k_f) (mass_solute := c.p.mass_solute) (M_s := c.p.M_s)
+        (rho_l := c.p.rho_l) (V := c.p.V) (cp_eff := rd1 cpA x.val))
+      (T_k := rd1 T x.val) (T_m := c.Tm) (LCS_i := mnum (mask.getD x.val false))
   let TbA : Array α := Array.ofFn (n := Nr) fun j =>
     F2D.solid_T_bottom (T_k_0 := rd Nr T 0 j.val)
       (q_overall := F2D.solid_q_overall (K_shelf := c.p.K_shelf) (T_shelf := Tsh) (T_k_0 := rd Nr T 0 j.val))
@@ -235,9 +240,35 @@ def solidStepGen (c : Ctx α) (inplace : Bool) (Tsh : α) (qe : Nat → α) (T w
 theorem solid_step (c : Ctx α) (inplace : Bool) (Tsh : α) (qe : Nat → α) (T w : Array α) (mask : Array Bool) :
     solidStep c inplace Tsh qe T w mask = solidStepGen c inplace Tsh qe T w mask := rfl
 
+/-- the mask a solidification step leaves (`LCS_i = T_k < T_eq_l`) and its complement (`LCS_i_r = ~LCS_i`) -/
+theorem solid_masks (c : Ctx α) (T : Array α) :
+    maskOf c T = T.map (fun t => F2D.solid_LCS_i (T_k := t) (T_eq_l := c.TeqL)) ∧
+    ∀ t Tl : α, F2D.solid_LCS_i_r (T_k := t) (T_eq_l := Tl) = !F2D.solid_LCS_i (T_k := t) (T_eq_l := Tl) :=
+  ⟨rfl, fun _ _ => rfl⟩
+
+/-- `BETA = np.ones((Nz, Nr))*LCS_i_r + (1 + beta/(T_k - T_m)**2)*LCS_i` per node: the hand model's `BETAof` IS the
+generated formula at the masks as numbers (`LCS_i_r` the complement of `LCS_i`) and the generated `beta` -/
+theorem BETA (p : Par α) (Tm : α) (sc : Bool) (cp T : α) :
+    BETAof p Tm sc cp T =
+      F2D.BETA (LCS_i_r := mnum (!sc))
+        (beta := F2D.beta (Dh := p.Dh) (k_f := p.k_f) (mass_solute := p.mass_solute) (M_s := p.M_s)
+          (rho_l := p.rho_l) (V := p.V) (cp_eff := cp))
+        (T_k := T) (T_m := Tm) (LCS_i := mnum sc) := rfl
+
+/-- `m_ice = np.zeros((Nz, Nr))*LCS_i_r + (mass_water - mass_solute (k_f/M_s)/(T_m - T_new))*LCS_i` per node, at the
+generated masks of the new field -/
+theorem m_ice (c : Ctx α) (t : α) :
+    (zero * mnum (!decide (t < c.TeqL)) + iceMass c.p c.Tm t * mnum (decide (t < c.TeqL)) : α) =
+      F2D.m_ice (LCS_i_r := mnum (F2D.solid_LCS_i_r (T_k := t) (T_eq_l := c.TeqL))) (mass_water := c.p.mass_water)
+        (mass_solute := c.p.mass_solute) (k_f := c.p.k_f) (M_s := c.p.M_s) (T_m := c.Tm) (T_new := t)
+        (LCS_i := mnum (F2D.solid_LCS_i (T_k := t) (T_eq_l := c.TeqL))) := rfl
+
 theorem w_i_new (c : Ctx α) (T : Array α) :
     iceFrac c T = T.map fun t =>
-      F2D.w_i_new (m_ice := zero * mnum (!decide (t < c.TeqL)) + iceMass c.p c.Tm t * mnum (decide (t < c.TeqL)))
+      F2D.w_i_new
+        (m_ice := F2D.m_ice (LCS_i_r := mnum (F2D.solid_LCS_i_r (T_k := t) (T_eq_l := c.TeqL)))
+          (mass_water := c.p.mass_water) (mass_solute := c.p.mass_solute) (k_f := c.p.k_f) (M_s := c.p.M_s)
+          (T_m := c.Tm) (T_new := t) (LCS_i := mnum (F2D.solid_LCS_i (T_k := t) (T_eq_l := c.TeqL))))
         (mass_water := c.p.mass_water)
         (mass_solute := c.p.mass_solute) := rfl
 
